@@ -27,7 +27,10 @@ KNOWN_FILE = os.path.join(VERIF, "known_findings.json")
 
 SAN_ENV = {
     "ASAN_OPTIONS": "abort_on_error=0:exitcode=97:detect_leaks=1:allocator_may_return_null=1:"
-                    "detect_stack_use_after_return=0:handle_abort=1:symbolize=1:max_allocation_size_mb=4096",
+                    "detect_stack_use_after_return=0:handle_abort=1:symbolize=1:max_allocation_size_mb=4096:"
+                    # librapidcheck has no frame pointers: full-depth allocation stacks fill ASan's stack depot with
+                    # garbage frames (GBs per shard). Six frames are plenty for attribution.
+                    "malloc_context_size=6:quarantine_size_mb=64",
     "UBSAN_OPTIONS": "print_stacktrace=1:halt_on_error=1:exitcode=98",
     "LSAN_OPTIONS": "exitcode=96",
     "TSAN_OPTIONS": "exitcode=95:halt_on_error=1",
